@@ -85,6 +85,18 @@ func checkC18(c *Case, r *Rec) error {
 		}
 		return nil
 	}
+	if c.Kind == "empty-component" {
+		if hasEmptyComponent(v) && h(v) {
+			return violation("", "C18: the default handler for %q accepts %q, which is empty or has an empty component", prop, v)
+		}
+		return nil
+	}
+	if c.Kind == "non-ascii-case" {
+		if (strings.Contains(v, "\u212a") || strings.Contains(v, "\u0130")) && h(v) {
+			return violation("", "C18: the default handler for %q accepts %q: a keyword with a non-ASCII letter that only Unicode lower-casing turns into the ASCII one", prop, v)
+		}
+		return nil
+	}
 	if c.Kind == "function-only" {
 		if h(v) && !functionList.MatchString(v) {
 			return violation("", "C18: the default handler for %q accepts %q, which is neither a keyword of that property nor a list of function calls", prop, v)
@@ -384,6 +396,14 @@ func fixedC18(r *Rec, tier string, shard, nshards int) []*Case {
 	fails = append(fails, sf...)
 	totalCalls += scalls
 	r.ClassN("structural_damage_calls", scalls)
+	ef, ecalls := emptyComponentStage(props)
+	fails = append(fails, ef...)
+	totalCalls += ecalls
+	r.ClassN("empty_component_calls", ecalls)
+	cf, ccalls := nonASCIICaseStage(props)
+	fails = append(fails, cf...)
+	totalCalls += ccalls
+	r.ClassN("non_ascii_case_calls", ccalls)
 	nif, nicalls := numberInsideStage(props)
 	fails = append(fails, nif...)
 	totalCalls += nicalls
